@@ -2,8 +2,9 @@
 import glob
 import json
 import os
+import shutil
 
-from .core import log, Infra
+from .core import log, Infra, Crash
 
 SPEC = "C17_verifiers"
 
@@ -53,6 +54,19 @@ def run(ctx):
     os.makedirs(tdir)
     out = ctx.run_harness(binary, ["c17", "-out", tdir, "-seed", str(ctx.seed), "-tier", ctx.tier], timeout=3000)
     log(out.strip().splitlines()[-1])
+    # the Vortex prover splits its column-wise hashing over runtime.NumCPU() chunks: the same family once more on three
+    # CPUs (chunks whose length is not a multiple of the prover's transposition window)
+    if shutil.which("taskset"):
+        tdir3 = os.path.join(ctx.work, "traces_cpu3")
+        os.makedirs(tdir3)
+        try:
+            o3 = ctx.run_harness("taskset", ["-c", "0-2", binary, "c17", "-out", tdir3, "-seed", str(ctx.seed), "-tier", ctx.tier,
+                                             "-schemes", "vortex"], timeout=3000)
+            log("cpu3", o3.strip().splitlines()[-1])
+            for f in glob.glob(os.path.join(tdir3, "c17_*.ndjson")):
+                shutil.move(f, os.path.join(tdir, os.path.basename(f)[:-7] + "_cpu3.ndjson"))
+        except Crash as ex:
+            ctx.crash_violation(ex, "vortex family on three CPUs")
     traces = sorted(glob.glob(os.path.join(tdir, "c17_*.ndjson")), key=os.path.getsize, reverse=True)
     if not traces:
         raise Infra("c17 harness wrote no traces")
